@@ -28,16 +28,25 @@ LookupWhy(ev, o) ==
            [] OTHER -> "ok"                       \* the oracle keeps this value symbolic / unspecified: no constraint
 
 Len0(tr) == IF tr.kind = "lookup" THEN Len(tr.obs) ELSE Len(tr.score)
+\* Bundles of equal time are listed in the order they were sent - except that a bundle whose time is "fuzzy" (fz: it
+\* involves the non-dyadic default legato, the real float time may differ by an ulp from the lattice point) may change
+\* places with bundles of the same lattice time.  Cand(l) = the expected bundles that may stand at position l.
+Cand(o, k) == {j \in k..Len(exp) : /\ \A i \in k..(j - 1) : exp[i].t = exp[j].t /\ (exp[i].fz \/ exp[j].fz)
+                                  /\ BundleWhy(o, exp[j], ids) = "ok"}
+MoveTo(s, j, k) == [i \in 1..Len(s) |-> IF i < k \/ i > j THEN s[i] ELSE IF i = k THEN s[j] ELSE s[i - 1]]
 Step == /\ l >= 1 /\ l <= Len0(Traces[tid])
         /\ LET tr == Traces[tid]
+               cand == IF tr.kind = "play" /\ tr.exc = "" /\ l <= Len(exp) THEN Cand(tr.score[l], l) ELSE {}
+               j == IF cand = {} THEN l ELSE CHOOSE x \in cand : \A y \in cand : x <= y
                why == IF tr.kind = "lookup" THEN LookupWhy(tr.ev, tr.obs[l])
                       ELSE IF tr.exc # "" THEN "raises"
                       ELSE IF l > Len(exp) THEN "extra-bundle"
-                      ELSE BundleWhy(tr.score[l], exp[l], ids) IN
+                      ELSE BundleWhy(tr.score[l], exp[j], ids) IN
            IF why = "ok"
-           THEN /\ l' = l + 1 /\ UNCHANGED <<tid, exp>>
-                /\ ids' = IF tr.kind = "play" /\ exp[l].cmd = "/s_new"
-                          THEN [r \in DOMAIN ids \cup {exp[l].ref} |-> IF r = exp[l].ref THEN tr.score[l].id ELSE ids[r]]
+           THEN /\ l' = l + 1 /\ UNCHANGED tid
+                /\ exp' = IF tr.kind = "play" /\ j # l THEN MoveTo(exp, j, l) ELSE exp
+                /\ ids' = IF tr.kind = "play" /\ exp[j].cmd = "/s_new"
+                          THEN [r \in DOMAIN ids \cup {exp[j].ref} |-> IF r = exp[j].ref THEN tr.score[l].id ELSE ids[r]]
                           ELSE ids
            ELSE /\ PrintT(<<"REJ", tr.id, l, why>>)
                 /\ l' = 0 - 2 /\ UNCHANGED <<tid, exp, ids>>
